@@ -39,7 +39,7 @@ type C09Sc struct {
 
 var c09Outcomes = []ItemSc{
 	{Tok: "ok"}, {Tok: "et"}, {Tok: "ep"}, {Tok: "pe"}, {Tok: "ps"}, {Tok: "pi"}, {Op: "unrouted", Tok: "ok"}, {Tok: "ok", Ext: "critical"}, {Op: "discover", Tok: "ok"}, {Op: "unknown", Tok: "ok"},
-	{Tok: "pS"}, {Tok: "pn"}, {Tok: "ok", Ext: "plain"}, {Tok: "y1,ok"}, {Tok: "y2,et"}, {Tok: "pk"}, {Tok: "pK"}, {Tok: "pm"}, {Tok: "nn"}, {Tok: "y1,nn"},
+	{Tok: "pS"}, {Tok: "pn"}, {Tok: "ok", Ext: "plain"}, {Tok: "y1,ok"}, {Tok: "y2,et"}, {Tok: "pk"}, {Tok: "pK"}, {Tok: "pm"}, {Tok: "nn"}, {Tok: "y1,nn"}, {Op: "destroy", Tok: "ok"}, {Op: "archive", Tok: "et"}, {Op: "recover", Tok: "ok"}, {Op: "revoke", Tok: "pe"}, {Op: "destroy", Tok: "nn"},
 }
 
 func genReqSc(g *simrt.Tape, maxItems int) ReqSc {
@@ -247,10 +247,10 @@ func checkBatch(x *X, prop string, rs *ReqSc, prefix string, supported []kmip.Pr
 					mismatch = fmt.Sprintf("item %d: built-in discovery answered with %v", i, ri.ResponsePayload)
 				}
 			} else if gotOK {
-				p, _ := ri.ResponsePayload.(*payloads.ActivateResponsePayload)
-				if returnsNothing(rs.Items[i]) && p == nil {
+				rid, has := responseIdentifier(ri.ResponsePayload)
+				if returnsNothing(rs.Items[i]) && !has {
 					// nothing returned, nothing carried
-				} else if p == nil || tokenID(p.UniqueIdentifier) != fmt.Sprintf("%s.%d", prefix, i) {
+				} else if !has || tokenID(rid) != fmt.Sprintf("%s.%d", prefix, i) {
 					mismatch = fmt.Sprintf("item %d carries the payload of another item (%v)", i, ri.ResponsePayload)
 				}
 			}
